@@ -78,6 +78,8 @@ type FuncV struct {
 	fn  *ssa.Function
 	env []Value
 	bi  *ssa.Builtin
+	// native: a function value implemented by the engine (the swapper reflectlite hands to sort.Slice)
+	native func(it *Interp, fr *frame, args []Value) Value
 	// bound method closures are ssa functions already
 }
 
